@@ -2,11 +2,9 @@ import GmVerif.Thm.C03
 
 #print axioms GmVerif.Thm.C03.compute_za_refines
 #print axioms GmVerif.Thm.C03.verify_raw_complete
-#print axioms GmVerif.Thm.C03.verify_raw_refines_partial
+#print axioms GmVerif.Thm.C03.verify_raw_refines
 #print axioms GmVerif.Thm.C03.verify_raw_sound
-#print axioms GmVerif.Thm.C03.cx_model_accepts
-#print axioms GmVerif.Thm.C03.cx_spec_rejects
-#print axioms GmVerif.Thm.C03.verify_raw_refines_counterexample
+#print axioms GmVerif.Thm.C03.cx_now_rejected
 #print axioms GmVerif.Thm.C03.sign_raw_refines
 #print axioms GmVerif.Thm.C03.sign_raw_retry
 #print axioms GmVerif.Thm.C03.sign_then_verify_impl
